@@ -19,6 +19,63 @@ FAMILIES = {
 }
 
 
+def _addr_casts(f, state_ids=None):
+    """(kind, node) for every conversion between pointers and integers in f, ASSERT arguments excluded: 'int2ptr' a
+    pointer manufactured from a non-constant integer, 'ptr2int' the numeric value of an address taken"""
+    out = []
+
+    def rec(n, in_assert):
+        if not isinstance(n, dict):
+            return
+        if n.get("k") == "Call" and n.get("callee") == "utilAssert":
+            return
+        if n.get("k") == "Cast" and isinstance(n.get("e"), dict):
+            inner = n["e"]
+            if n.get("p") and not inner.get("p") and ir.int_val(inner) is None and inner.get("k") != "Str":
+                out.append(("int2ptr", n))
+            elif not n.get("p") and inner.get("p") and (n.get("t") or "") not in ("void", "_Bool", "bool_t"):
+                rr = root_ref(inner)
+                # only the state moves: the alignment of a caller's data buffer may be looked at
+                if state_ids is None or (rr is not None and rr.get("id") in state_ids):
+                    out.append(("ptr2int", n))
+        for c in ir.kids(n):
+            rec(c, in_assert)
+    rec(f.body, False)
+    return out
+
+
+def check_address_independent(prog, units, res):
+    """R10.5: in the units whose states are declared copyable, nothing is computed from the numeric value of an address:
+    no pointer into the state is converted to an integer and no pointer is made from an integer (outside ASSERT).  A layout that is a
+    function of offsets only is the same wherever the state lies; one that rounds an absolute address is not."""
+    from .frontend import VERIF
+    st = ir.Program("w64", units=[os.path.join(VERIF, "selftest", "addr_positive.c")], tag="w64-addrself")
+    hits = {f.name: [k for k, _ in _addr_casts(f)] for f in st.all_funcs() if f.body is not None}
+    if sorted(hits.get("aligned_part", [])) != ["int2ptr", "ptr2int"] or hits.get("offset_part"):
+        raise AnalysisBroken("R10.5 self-test: expected int2ptr+ptr2int in aligned_part and nothing in offset_part, got %r" % hits)
+    n = 0
+    from . import c14, sb
+    stt = c14.state_types(prog)
+    for u in units:
+        for f in prog.by_unit[u]:
+            if f.file != u or f.body is None:
+                continue
+            n += 1
+            ids = set()
+            for pi in (stt.get(f.name) or {}):
+                if pi >= 0:
+                    ids |= sb.state_aliases(f, pi)
+            for kind, c in _addr_casts(f, ids):
+                res.violation("R10.5-layout-independent-of-address", function=f.name, file=f.relfile, line=c.get("l") or f.line,
+                              construct="%s: %s" % (kind, show(c)[:70]),
+                              detail="the numeric value of an address enters a computation in code whose state the header declares "
+                                     "copyable as a memory fragment: what is computed from it changes when the state is moved")
+    res.proved("R10.5-layout-independent-of-address", function="(all)", file="src/crypto/belt, brng.c, botp.c", line=0,
+               construct="%d functions without pointer/integer conversions" % n,
+               detail="every address in these units is formed from a pointer and an offset")
+    return n
+
+
 def run(tier, seed=0):
     res = Result("C10", "other", tier)
     prog = ir.Program("w64")
@@ -102,6 +159,8 @@ def run(tier, seed=0):
                                detail="`%s`: %s" % (show(n)[:60], "null" if cls == "null" else
                                                     "caller-owned buffer (documented to stay valid); independent of the state's address"))
             # raw copies of addresses into the state are not used by the tree; a memCopy of &local into a state would be flagged here
+    nfun = check_address_independent(prog, units, res)
+    res.floor("functions of copyable-state units", nfun, 150)
     from . import sb
     nget = sb.check_get_steps(prog, res, "R10.3-get-does-not-disturb")
     res.floor("Get/Verify steps", nget, 25)
